@@ -1,6 +1,77 @@
-/- Line-protocol driver for engine `value` — not built yet (stub). -/
+/- Line-protocol driver for the value model (engine `value`, property C19). -/
+import AxVerif.Model.Value
+namespace AxVerif.Value
+open AxVerif
+
+def parseDefects (flags : List String) : Defects :=
+  { blobLenOverflow := flags.contains "blobLenOverflow" }
+
+def i64? (s : String) : Option Int :=
+  match s.toInt? with
+  | some v => if decide (VarInt.InI64 v) then some v else none
+  | none => none
+
+def u64? (s : String) : Option Nat :=
+  match s.toNat? with
+  | some n => if n < 18446744073709551616 then some n else none
+  | none => none
+
+def ordName : Ordering → String
+  | .lt => "lt" | .eq => "eq" | .gt => "gt"
+
+def step (D : Defects) (line : String) : String :=
+  match words line with
+  | ["zz", v] => match i64? v with
+    | some v => toString (VarInt.zigzag v)
+    | none => "bad-op"
+  | ["uzz", u] => match u64? u with
+    | some u => toString (VarInt.unzigzag u)
+    | none => "bad-op"
+  | ["vi.enc", v] => match i64? v with
+    | some v =>
+      let e := VarInt.encode v
+      let rt := match VarInt.decode e with
+        | some (v', []) => if v' = v then "rt=ok" else "rt=DIFF"
+        | _ => "rt=DIFF"
+      s!"{hexOfBytes e} size={VarInt.encodedSize v} {rt}"
+    | none => "bad-op"
+  | ["vi.dec", h] => match bytesOfHex h with
+    | some bs => match VarInt.decode bs with
+      | some (v, rest) => s!"ok {v} used={bs.length - rest.length}"
+      | none => "err prefix"
+    | none => "bad-op"
+  | ["vi.read", h] => match bytesOfHex h with
+    | some bs => match VarInt.readBuf VarInt.maxLen bs with
+      | .ok p => s!"ok {hexOfBytes p}"
+      | .error e => s!"err {e.name}"
+    | none => "bad-op"
+  | ["vi.cmp", a, b] => match bytesOfHex a, bytesOfHex b with
+    | some a, some b => match VarInt.decode a, VarInt.decode b with
+      | some (x, _), some (y, _) => ordName (compare x y)
+      | _, _ => "err prefix"
+    | _, _ => "bad-op"
+  | ["blob.enc", h] => match bytesOfHex h with
+    | some d =>
+      let e := Blob.encode d
+      let rt := match Blob.decode D e with
+        | .ok (d', used, []) => if d' = d ∧ used = e.length then "rt=ok" else "rt=DIFF"
+        | _ => "rt=DIFF"
+      s!"{hexOfBytes e} {rt}"
+    | none => "bad-op"
+  | ["blob.dec", h] => match bytesOfHex h with
+    | some bs => match Blob.decode D bs with
+      | .ok (d, used, _) => s!"ok data={hexOrDash d} used={used}"
+      | .error e => s!"err {e.name}"
+    | none => "bad-op"
+  | ["blob.cmp", a, b] => match bytesOfHex a, bytesOfHex b with
+    | some a, some b =>
+      let o := Blob.cmp a b
+      s!"{ordName o} eq={o == .eq}"
+    | _, _ => "bad-op"
+  | _ => "bad-op"
+
+end AxVerif.Value
+
 namespace AxVerif.Drivers
-
-def value (_flags : List String) (_line : String) : String := "unimplemented"
-
+def value (flags : List String) (line : String) : String := AxVerif.Value.step (AxVerif.Value.parseDefects flags) line
 end AxVerif.Drivers
